@@ -23,6 +23,25 @@ import (
 // ---------------------------------------------------------------------------------------
 // dumps
 
+// failLimited records a direct-oracle failure, at most 3 times per signature and run (the
+// orchestrator re-reads the whole op stream per recorded failure); further hits are counted.
+var failSeen = map[string]int{}
+
+func failLimited(c *Ctx, sig, detail string) {
+	failSeen[sig]++
+	c.Count("oraclefail:" + sig)
+	if failSeen[sig] <= 3 {
+		c.Fail(sig, detail)
+	}
+}
+
+func short(s string) string {
+	if len(s) > 160 {
+		return s[:160] + "…"
+	}
+	return s
+}
+
 func hx(b []byte) string {
 	if len(b) == 0 {
 		return "-"
